@@ -900,8 +900,11 @@ def partition_findings(case, n, parts, clears, max_findings=3):
             B.clear()
             if it % s != 0 and len(case.betas) > 1:
                 offmult = True
-            # right after a clear the histories are empty but READABLE through every path
+            # right after a clear the histories are empty but READABLE through every path (once the chain
+            # has been stepped at all: before that the code refuses, which is a legal refusal)
             try:
+                if it == 0:
+                    raise StopIteration
                 names = ['positions', 'stats', 'acceptance'] + (['temperature_swaps', 'temperature_acceptance']
                                                                  if case.kind == 'pt' and len(case.betas) > 1 else [])
                 for obj in [B] + list(B.chains):
@@ -909,6 +912,8 @@ def partition_findings(case, n, parts, clears, max_findings=3):
                         a = getattr(obj, nm)
                         if a.shape[-1] != 0:
                             bad('history-after-clear', '%s.%s has %d entries right after a clear()' % (type(obj).__name__, nm, a.shape[-1]))
+            except StopIteration:
+                pass
             except Exception as e:      # noqa: BLE001
                 bad('history-after-clear-raises', 'reading the (empty) history right after a clear() at iteration %d raised %r' % (it, e))
             # "the retained history starts at the clear": what the chain and the sampler call the start
